@@ -74,7 +74,7 @@ impl Scenario for C13 {
         enum_count(maxlen(tier))
             + match tier {
                 Tier::Quick => 200_000,
-                Tier::Thorough => 4_000_000,
+                Tier::Thorough => 12_000_000,
             }
     }
     fn plan(&self, seed: u64, idx: u64, tier: Tier) -> Plan {
